@@ -197,7 +197,7 @@ def run(ctx, chk):
                     # what the C caller is told: NULL exactly on success; on failure a pointer to the error record this very
                     # call filled in -- never a verdict left over from an earlier call on the same context
                     pv = r['path'].value
-                    is_null = wrappers_model.describe(pv) == ('empty', 'null') or (pv[0] == 'c' and pv[1] in (0, ('b', '0000000000000000')))
+                    is_null = wrappers_model.describe(pv)[0] == 'empty' or (pv[0] == 'c' and pv[1] in (0, ('b', '0000000000000000')))
                     conds_on_ctx = [psi.fmt_cond(c)[:70] for c in r['path'].conds
                                     if c[0][0] == 't' and c[0][1] == 'discr' and wrappers_model.call_of(c[0][2][0]) is None and 'err' in fmt(c[0])]
                     if out[0] == 'ok':
@@ -231,6 +231,10 @@ def run(ctx, chk):
             if r['out'] and r['out'][0] == 'ok' and r['status_in'] is not None:
                 chk.ob('C17.Y5', 'clients:status-number:%s' % r['status_in'], cst.get(r['out'][3]) == rst.get(r['status_in']), '',
                        'status %s(%s) -> %s(%s)' % (r['status_in'], rst.get(r['status_in']), r['out'][3], cst.get(r['out'][3])))
+    # ---- Y9 the open / close entry points of both clients are thin: a client is handed out exactly when the shm crate opened
+    # the segment at the path the caller gave, a failure is the shm crate's error converted like the errors of now(), and the C
+    # close releases what the C open allocated (so that the mapping and the descriptor are given back)
+    open_close_rules(fb, chk)
     # ---- Y6 (wipe layout) is C04.T6; re-evaluated here
     from . import C04
     sub = type(chk)('C17', LEVEL, chk.tier)
@@ -250,6 +254,132 @@ def run(ctx, chk):
                    img.total, got.get('segsize'), inf['map_len'], d['total']))
     chk.tables['doc_layout'] = [{k: v for k, v in f.items()} for f in d['fields']]
     chk.tables['c_records'] = {k: v.get('layout') for k, v in cf.records.items()}
+
+
+def open_close_rules(fb, chk):
+    no_shm = lambda b: b.crate.name == common.SHM
+    is_open = lambda n: n.endswith('ShmReader::new')
+    entries = []
+    for b in fb.bodies(common.CLIENT):
+        if b.defkind != 'Closure' and (b.impl_self or '').endswith('ClockBoundClient') and b.name in ('new_with_path',):
+            entries.append(('rust', b))
+    for b in fb.bodies(common.FFI):
+        if b.name == 'clockbound_open':
+            entries.append(('c', b))
+    chk.floor('C17.Y9', 'open entry points of the client libraries', len(entries), 2)
+    for side, b in entries:
+        chk.saw(b)
+        eng = common.mk_engine(fb, no_inline=no_shm)
+        n_ok = n_err = 0
+        p1 = ('sym', b.debug_names.get(1, 'arg1'))
+        for p in eng.run(b):
+            if p.kind != 'return':
+                continue
+            opens = [(n, ef) for n, ef in enumerate(p.effects) if ef['kind'] == 'call' and is_open(ef['callee'])]
+            if not opens:
+                chk.ob('C17.Y9', 'open:%s:calls-the-shm-open' % side, False, p.where[2], 'a returning path of %s does not call ShmReader::new' % b.name)
+                continue
+            n, ef = opens[0]
+            oterm = psi.T('call', ef['callee'], n, *ef['args'])
+            failed = None
+            for term, op, val, _ in p.conds:
+                if term == psi.T('discr', oterm) and op == '==':
+                    failed = (val == 1)
+            # the path opened is the caller's: the argument (or what it points to / was built from) derives from the first parameter
+            def mentions_param(v, depth=0):
+                if depth > 4:
+                    return False
+                for y in psi.walk(v):
+                    if y == p1:
+                        return True
+                    if isinstance(y, tuple) and len(y) == 3 and y[0] == 't' and y[1] == 'call' and len(y[2]) > 1 and isinstance(y[2][1], int) and \
+                            y[2][1] < len(p.effects):
+                        # what the arguments of that call pointed to when it was made
+                        for x in (p.effects[y[2][1]].get('pointees') or []):
+                            if x is not None and mentions_param(x, depth + 1):
+                                return True
+                return False
+            argv = [ef['args'][0]] + [x for x in (ef.get('pointees') or [])[:1] if x is not None]
+            from_param = any(mentions_param(a) for a in argv)
+            chk.ob('C17.Y9', 'open:%s:opens-the-path-it-was-given' % side, from_param, ef['site'][2],
+                   'ShmReader::new is called with %s' % fmt(ef['args'][0])[:80])
+            ok_payload = psi.T('field', psi.T('as', oterm, 'Ok'), '0')
+            err_payload = psi.T('field', psi.T('as', oterm, 'Err'), '0')
+            shm_err = None
+            for term, op, val, _ in p.conds:
+                if term == psi.T('discr', err_payload) and op == '==':
+                    shm_err = wrappers_model.SHM_ERR.get(val)
+            kmap_c = {'SyscallError': 'CLOCKBOUND_ERR_SYSCALL', 'SegmentNotInitialized': 'CLOCKBOUND_ERR_SEGMENT_NOT_INITIALIZED',
+                      'SegmentMalformed': 'CLOCKBOUND_ERR_SEGMENT_MALFORMED', 'CausalityBreach': 'CLOCKBOUND_ERR_CAUSALITY_BREACH'}
+            kmap_r = {'SyscallError': 'Syscall', 'SegmentNotInitialized': 'SegmentNotInitialized', 'SegmentMalformed': 'SegmentMalformed',
+                      'CausalityBreach': 'CausalityBreach'}
+
+            def holds_payload(v, depth=0):
+                """the opened reader sits inside the value (followed through heap cells / boxes)"""
+                if depth > 5 or v is None:
+                    return False
+                for y in psi.walk(v):
+                    if y == ok_payload:
+                        return True
+                    if isinstance(y, tuple) and len(y) == 2 and y[0] == 'ref' and isinstance(y[1], tuple) and len(y[1]) == 2 and \
+                            isinstance(y[1][0], tuple) and y[1][0] and y[1][0][0] in ('L', 'H'):
+                        try:
+                            if holds_payload(eng.load(p.state, y[1]), depth + 1):
+                                return True
+                        except Exception:
+                            pass
+                return False
+            if side == 'rust':
+                v = p.value
+                is_ok = v[0] == 'agg' and v[2] == 'Ok'
+                good = failed is not None and is_ok == (not failed)
+                if is_ok and good:
+                    good = holds_payload(v)
+                if failed and good:
+                    ev = v[3][0] if v[3] else None
+                    kind = ev[3][0][2] if ev is not None and ev[0] == 'agg' and ev[3] and ev[3][0][0] == 'agg' else None
+                    good = shm_err is not None and kind == kmap_r.get(shm_err)
+                outcome = 'Ok' if is_ok else 'Err'
+            else:
+                v = p.value
+                is_null = wrappers_model.describe(v)[0] == 'empty' or (v[0] == 'c' and v[1] in (0, ('b', '0000000000000000')))
+                good = failed is not None and is_null == failed
+                if failed and good:
+                    # the error reaches the caller through the out-parameter (when one was given)
+                    wr = [e2 for e2 in p.effects if e2['kind'] == 'call' and e2['callee'].endswith('::write') and len(e2['args']) == 2]
+                    p2 = ('sym', b.debug_names.get(2, 'arg2'))
+                    nullchk = any(c[0][0] == 't' and 'is_null' in fmt(c[0]) for c in p.conds)
+                    if wr:
+                        rec = wr[0]['args'][1]
+                        kind = rec[3][0][2] if rec[0] == 'agg' and rec[3] and rec[3][0][0] == 'agg' else None
+                        good = any(y == p2 for y in psi.walk(wr[0]['args'][0])) and shm_err is not None and kind == kmap_c.get(shm_err)
+                    else:
+                        good = nullchk      # (no error record asked for)
+                if failed is False and good:
+                    good = any(holds_payload(a) or holds_payload(x) for e2 in p.effects if e2['kind'] == 'call'
+                               for a, x in zip(e2['args'], (e2.get('pointees') or []) + [None] * len(e2['args'])))
+                outcome = 'NULL' if is_null else 'a context'
+            n_ok += (failed is False)
+            n_err += bool(failed)
+            chk.ob('C17.Y9', 'open:%s:%s' % (side, 'failure-is-the-shm-error' if failed else 'client-iff-segment-opened'), good, p.where[2],
+                   '%s: ShmReader::new %s, caller gets %s' % (b.name, 'failed' if failed else 'succeeded' if failed is False else 'result not consulted', outcome))
+        chk.floor('C17.Y9', 'paths of %s (success, failure)' % b.name, min(n_ok, 1) + min(n_err, 1), 2)
+    for b in fb.bodies(common.FFI):
+        if b.name != 'clockbound_close':
+            continue
+        chk.saw(b)
+        p1 = ('sym', b.debug_names.get(1, 'arg1'))
+        freed = False
+        for p in common.mk_engine(fb, no_inline=no_shm).run(b):
+            if p.kind != 'return':
+                continue
+            raw = [e2 for e2 in p.effects if e2['kind'] == 'call' and e2['callee'].endswith('Box::<T>::from_raw') and any(y == p1 for a in e2['args'] for y in psi.walk(a))]
+            dropped = [e2 for e2 in p.effects if e2['kind'] == 'drop' and 'Box<' in e2['ty']] + \
+                      [e2 for e2 in p.effects if e2['kind'] == 'call' and e2['callee'].endswith('mem::drop')]
+            freed = bool(raw) and bool(dropped)
+            chk.ob('C17.Y9', 'close:c:releases-the-context', freed, p.where[2],
+                   'clockbound_close %s' % ('takes the context back into a Box and drops it' if freed else
+                                           'does not free the context it was given: the mapping and the descriptor of every closed client leak'))
 
 
 def ptr_compatible(ctype, rty, crate):
